@@ -121,7 +121,9 @@ func (c *Deque[T]) Reset() {
 func (c *Deque[T]) autoReset() {
 	c.head, c.tail, c.length = Nil, Nil, 0
 	c.stack = c.stack[:0]
-	c.elements = c.elements[:1]
+	if len(c.elements) > 1 {
+		c.elements = c.elements[:1]
+	}
 }
 
 // Len 返回双端队列的长度
